@@ -37,6 +37,7 @@ def run(prog, rep, tier='quick', config='default'):
     r4a2(prog, rep)
     r4d(prog, rep)
     r4e(prog, rep)
+    r4f(prog, rep)
 
 
 # ------------------------------------------------------------------------------------------------ R4a
@@ -475,3 +476,49 @@ def r4e(prog, rep):
         else:
             rep.ok('R4e', k, where=c.where(), fn=f.name,
                    detail='no factor of the tested balance is a quotient (the division, if any, is applied last)')
+
+
+# ------------------------------------------------------------------------------------------------ R4f
+def r4f(prog, rep):
+    """In the bookkeeping modules no product or quotient has the pre-computed, rounded factor of a split ratio (the return value of a
+    SplitRatio method that divides, i.e. pre_to_post_factor) as a factor or divisor.  Share counts that decide a
+    rejection ("went below zero", "more than the current holdings") are compared exactly; x / (1/3) is 3.000...0003 * x, so a
+    legal sale of everything that is left after a reverse split is rejected.  The ratio's two terms have to be applied one after
+    the other, multiplication first."""
+    n = 0
+    bad = []
+    for f in prog.product_fns():
+        if not f.name.startswith('portfolio::bookkeeping::') or mir.is_testsupport(f.name):
+            continue
+        for c in f.calls:
+            if not (MUL.search(c.decl) or MUL.search(c.callee) or DIV.search(c.decl) or DIV.search(c.callee)):
+                continue
+            if not any('Decimal' in f.ty.get(a, '') for a in c.arg_locals()):
+                continue
+            n += 1
+            for a in c.args:
+                if not is_place(a):
+                    continue
+                oa = mir.provenance(f, a, follow_all_call_args=True)
+                for x in oa.calls:
+                    h = prog.resolve(x.callee, f.crate)
+                    # the pre-divided factor of a split ratio (share counts are scaled by it; money amounts such as cost per share
+                    # or the loss ratio are rounded quantities anyway and are not judged)
+                    if h is not None and h.kind in ('Fn', 'AssocFn') and 'SplitRatio' in h.name and returns_quotient(prog, h):
+                        bad.append((f, c, x))
+    seen = set()
+    for (f, c, x) in bad:
+        k = '%s|no-rounded-ratio-as-factor|%s' % (f.name, short(x.callee))
+        if k in seen:
+            continue
+        seen.add(k)
+        rep.violation('R4f', k, where=c.where(), fn=f.name,
+                      detail='%s at %s multiplies or divides by %s(), a quotient that is already rounded to 28 digits: share counts derived from it '
+                             'are off in the last digit (x / (1/3) = 3.000...0003 x), and the exact comparisons that decide a rejection then '
+                             'refuse a legal history' % (short(c.callee), c.where(), short(x.callee)))
+    if not bad:
+        if n >= 10:
+            rep.ok('R4f', 'no-rounded-ratio-as-factor', fn='portfolio::bookkeeping',
+                   detail='%d Decimal multiplications / divisions in the bookkeeping modules; none uses a pre-divided ratio as an operand' % n)
+        else:
+            rep.violation('R4f', 'anchor-lost:bookkeeping-arithmetic', detail='anchor lost: only %d Decimal products / quotients found in portfolio::bookkeeping' % n)
